@@ -327,6 +327,7 @@ fn cmd_fault(m: &HashMap<String, String>) -> i32 {
     let nops: usize = arg(m, "nops", 25);
     let max_pos: u64 = arg(m, "positions", 100);
     let large = m.contains_key("large");
+    let reopen_heavy = m.contains_key("reopen-heavy");
     let only: Option<(u64, bool)> = m
         .get("idx")
         .and_then(|i| i.parse().ok())
@@ -335,7 +336,7 @@ fn cmd_fault(m: &HashMap<String, String>) -> i32 {
     let mut chunk = 0;
     let mut run_no = 0u64;
     for seed in seed0..seed0 + runs {
-        let plan = fault::make_plan(seed, nops, large);
+        let plan = fault::make_plan(seed, nops, large, reopen_heavy);
         let hang_info = Arc::new(parking_lot::Mutex::new(String::new()));
         let hi2 = Arc::clone(&hang_info);
         let out2 = out.clone();
@@ -396,7 +397,7 @@ fn cmd_fault(m: &HashMap<String, String>) -> i32 {
                     std::fs::write(
                         &rpath,
                         serde_json::to_string(&json!({"driver": "fault", "seed": seed, "nops": nops,
-                            "large": large, "idx": idx, "sticky": sticky}))
+                            "large": large, "reopen_heavy": reopen_heavy, "idx": idx, "sticky": sticky}))
                         .unwrap(),
                     )
                     .unwrap();
@@ -404,7 +405,7 @@ fn cmd_fault(m: &HashMap<String, String>) -> i32 {
                 results.push(json!({"seed": run_no, "wseed": seed, "idx": idx, "sticky": sticky,
                     "status": o.status, "fired": o.fired, "events": o.lines.len(),
                     "trace": out.join(format!("trace_{:04}.ndjson", chunk)).to_string_lossy(),
-                    "replay": rpath.to_string_lossy(), "nops": nops, "large": large,
+                    "replay": rpath.to_string_lossy(), "nops": nops, "large": large, "reopen_heavy": reopen_heavy,
                     "panics": Vec::<String>::new()}));
                 lines.extend(o.lines);
                 in_chunk += 1;
